@@ -348,9 +348,9 @@ def panic_sites(body):
 def const_index_under_len_eq(body, bb, t):
     """discharge: `v[K]` (Vec/slice Index with constant K) dominated by a `v.len() == N` test with K < N on the true edge"""
     idx = t["args"][1]
-    if idx[0] != "k" or not str(idx[1].get("v", "")).isdigit():
+    k = body.const_value(idx)
+    if k is None:
         return False
-    k = int(idx[1]["v"])
     edges = []
     for sb in body.switches():
         si = body.switch_info(sb)
@@ -359,9 +359,10 @@ def const_index_under_len_eq(body, bb, t):
         for a in si["atoms"]:
             if a.kind == "bin" and a.what == "Eq":
                 ops = [a.extra["a"], a.extra["b"]]
-                consts = [o for o in ops if o[0] == "k" and str(o[1].get("v", "")).isdigit()]
                 lens = [o for o in ops if o[0] != "k" and any(x.kind == "call" and re.search(r"(Vec(<.*>)?|\[T\]|<impl \[T\]>)::len$", x.what) for x in body.origins(o))]
-                if consts and lens and k < int(consts[0][1]["v"]):
+                consts = [body.const_value(o) for o in ops if o not in lens]
+                consts = [c for c in consts if c is not None]
+                if consts and lens and k < consts[0]:
                     edges.append((sb, si["true"]))
     if not edges:
         return False
